@@ -8,7 +8,9 @@ import dataclasses
 import datetime
 import decimal
 import hashlib
+import inspect
 import io
+import itertools
 import json
 
 # ------------------------------------------------------------------------------------------------------ extraction
@@ -162,47 +164,164 @@ def state_key(results) -> str:
 
 
 # ------------------------------------------------------------------------------------------------------- observers
+#
+# An observer is an interface method together with a choice of values for its OPTIONAL parameters.  The optional parameters are
+# not listed here: they are discovered by reflection (inspect.signature) on the bound method of the object at hand, and every
+# parameter whose values can be enumerated - bool default: the other truth value; Optional[bool] with default None: True and
+# False - contributes an axis.  All combinations of the axes except the all-default one (more than 16 combinations: one
+# deviation from the defaults at a time) are observers of their own, spelled  base(param=value,...) .  Parameters whose values
+# cannot be enumerated (numbers, strings, objects) are reported in UNENUMERATED and called with their default only.
 
-def _call(f, *a):
+_SIG = {}               # (type, method name) -> list of kwargs dicts (non-default option sets)
+UNENUMERATED = set()    # "Type.method(param)" : optional parameter left at its default
+
+
+def _axis(p):
+    d = p.default
+    if isinstance(d, bool):
+        return [not d]
+    if d is None and "bool" in str(p.annotation):
+        return [True, False]
+    return []
+
+
+def option_sets_of(f, label=None):
+    """non-default keyword combinations of the optional parameters of the callable f (deterministic order)"""
     try:
-        return f(*a)
+        sig = inspect.signature(f)
+    except (TypeError, ValueError):
+        return []
+    axes = []
+    for p in sig.parameters.values():
+        if p.default is inspect.Parameter.empty or p.kind in (p.VAR_POSITIONAL, p.VAR_KEYWORD, p.POSITIONAL_ONLY):
+            continue
+        vals = _axis(p)
+        if vals:
+            axes.append((p.name, vals))
+        else:
+            UNENUMERATED.add("%s(%s)" % (label or getattr(f, "__qualname__", "?"), p.name))
+    if not axes:
+        return []
+    out = []
+    total = 1
+    for _, vals in axes:
+        total *= 1 + len(vals)
+    if total <= 16:
+        for choice in itertools.product(*[[_DEFAULT] + vals for _, vals in axes]):
+            kw = {name: v for (name, _), v in zip(axes, choice) if v is not _DEFAULT}
+            if kw:
+                out.append(kw)
+    else:
+        for name, vals in axes:
+            out.extend({name: v} for v in vals)
+    return out
+
+
+_DEFAULT = object()
+
+
+def option_sets(obj, method):
+    """option sets of obj.method (cached per type)"""
+    key = (type(obj), method)
+    got = _SIG.get(key)
+    if got is None:
+        f = getattr(obj, method, None)
+        got = option_sets_of(f, "%s.%s" % (type(obj).__name__, method)) if callable(f) else []
+        _SIG[key] = got
+    return got
+
+
+def kw_text(kw) -> str:
+    return ",".join("%s=%r" % (k, kw[k]) for k in sorted(kw))
+
+
+def obs_name(base, kw) -> str:
+    return "%s(%s)" % (base, kw_text(kw)) if kw else base
+
+
+_LIT = {"True": True, "False": False, "None": None}
+
+
+def parse_obs(name):
+    """'full_text(include_image_captions=True)' -> ('full_text', {'include_image_captions': True})"""
+    if "(" not in name:
+        return name, {}
+    base, rest = name.split("(", 1)
+    kw = {}
+    for part in rest.rstrip(")").split(","):
+        if part:
+            k, v = part.split("=", 1)
+            kw[k] = _LIT[v]
+    return base, kw
+
+
+def _accepts(obj, method, kw) -> bool:
+    return not kw or any(kw == o for o in option_sets(obj, method))
+
+
+def _call(f, *a, **kw):
+    try:
+        return f(*a, **kw)
     except Exception as e:  # noqa  (an exception from an accessor is a return value of the observation)
         return {"__raises__": type(e).__name__}
+
+
+def _optioned(obj, method, post, out, key):
+    """out[key(kw)] = post(obj.method(**kw)) for every non-default option set of an accessor (nothing for accessors without)"""
+    for kw in option_sets(obj, method):
+        out[obs_name(key, kw)] = post(_call(getattr(obj, method), **kw))
 
 
 def _image_view(img):
     def rd():
         return {"__bytes__": _sha(img.get_bytes().read())}
-    return {"bytes": _call(rd), "content_type": _call(img.get_content_type), "caption": _call(img.get_caption),
-            "description": _call(img.get_description), "metadata": canon(_call(img.get_metadata))}
+    out = {"bytes": _call(rd), "content_type": _call(img.get_content_type), "caption": _call(img.get_caption),
+           "description": _call(img.get_description), "metadata": canon(_call(img.get_metadata))}
+    for m, k in (("get_content_type", "content_type"), ("get_caption", "caption"), ("get_description", "description"),
+                 ("get_metadata", "metadata")):
+        _optioned(img, m, canon, out, k)
+    return out
 
 
 def _table_view(t):
     if hasattr(t, "get_table"):
-        return {"table": canon(_call(t.get_table)), "dim": canon(_call(t.get_dim))}
+        out = {"table": canon(_call(t.get_table)), "dim": canon(_call(t.get_dim))}
+        _optioned(t, "get_table", canon, out, "table")
+        _optioned(t, "get_dim", canon, out, "dim")
+        return out
     return {"table": canon(t)}
 
 
+def _images_of(v):
+    return [_image_view(i) for i in v] if isinstance(v, (list, tuple)) else canon(v)
+
+
+def _tables_of(v):
+    return [_table_view(t) for t in v] if isinstance(v, (list, tuple)) else canon(v)
+
+
 def _unit_view(u):
-    imgs = _call(u.get_images)
-    tabs = _call(u.get_tables)
-    return {"text": _call(u.get_text),
-            "images": [_image_view(i) for i in imgs] if isinstance(imgs, (list, tuple)) else canon(imgs),
-            "tables": [_table_view(t) for t in tabs] if isinstance(tabs, (list, tuple)) else canon(tabs),
-            "metadata": canon(_call(u.get_metadata)), "to_json": canon(_call(u.to_json))}
+    out = {"text": _call(u.get_text), "images": _images_of(_call(u.get_images)), "tables": _tables_of(_call(u.get_tables)),
+           "metadata": canon(_call(u.get_metadata)), "to_json": canon(_call(u.to_json))}
+    _optioned(u, "get_text", canon, out, "text")
+    _optioned(u, "get_images", _images_of, out, "images")
+    _optioned(u, "get_tables", _tables_of, out, "tables")
+    _optioned(u, "get_metadata", canon, out, "metadata")
+    _optioned(u, "to_json", canon, out, "to_json")
+    return out
 
 
-def o_full_text(r):
-    return r.get_full_text()
+def o_full_text(r, **kw):
+    return r.get_full_text(**kw)
 
 
-def o_units(r):
-    return [_unit_view(u) for u in r.iterate_units()]
+def o_units(r, **kw):
+    return [_unit_view(u) for u in r.iterate_units(**kw)]
 
 
-def o_units_first(r):
+def o_units_first(r, **kw):
     """the caller looks at the first unit only and abandons the iterator"""
-    it = iter(r.iterate_units())
+    it = iter(r.iterate_units(**kw))
     u = next(it, None)
     out = None if u is None else {"text": _call(u.get_text), "metadata": canon(_call(u.get_metadata))}
     close = getattr(it, "close", None)
@@ -211,50 +330,169 @@ def o_units_first(r):
     return out
 
 
-def o_images(r):
-    return [_image_view(i) for i in r.iterate_images()]
+def o_images(r, **kw):
+    return [_image_view(i) for i in r.iterate_images(**kw)]
 
 
-def o_tables(r):
-    return [_table_view(t) for t in r.iterate_tables()]
+def o_tables(r, **kw):
+    return [_table_view(t) for t in r.iterate_tables(**kw)]
 
 
-def o_metadata(r):
-    m = r.get_metadata()
-    return {"metadata": canon(m), "to_dict": canon(_call(m.to_dict)) if hasattr(m, "to_dict") else None}
+def o_metadata(r, **kw):
+    m = r.get_metadata(**kw)
+    out = {"metadata": canon(m), "to_dict": canon(_call(m.to_dict)) if hasattr(m, "to_dict") else None}
+    if hasattr(m, "to_dict"):
+        _optioned(m, "to_dict", canon, out, "to_dict")
+    return out
 
 
-def o_to_json(r):
-    return json.loads(jtext(r.to_json()))
+def o_to_json(r, **kw):
+    return json.loads(jtext(r.to_json(**kw)))
 
 
-def o_serialize_nobin(r):
+def o_serialize(r, **kw):
     from sharepoint2text.parsing.extractors.serialization import serialize_extraction
-    return json.loads(jtext(serialize_extraction(r, include_binary=False)))
+    return json.loads(jtext(serialize_extraction(r, **kw)))
 
 
-def o_attachments(r):
+def o_attachments(r, **kw):
     f = getattr(r, "iterate_supported_attachments", None)
     if f is None:
         return None
-    return [json.loads(jtext(a.to_json())) for a in f()]
+    return [json.loads(jtext(a.to_json())) for a in f(**kw)]
 
 
-OBSERVERS = {"full_text": o_full_text, "units": o_units, "units_first": o_units_first, "images": o_images, "tables": o_tables,
-             "metadata": o_metadata, "to_json": o_to_json, "serialize_nobin": o_serialize_nobin, "attachments": o_attachments}
-ALPHABET = list(OBSERVERS)
+# ---- parts: the accessors of the objects a result is made of (slides, sheets, images, metadata ...), found by reflection
+
+_PART_METHODS = {}     # type -> [(method name, [option sets])] : public methods callable without arguments
+
+
+def _is_library_object(v) -> bool:
+    return (dataclasses.is_dataclass(v) and not isinstance(v, type)
+            and (type(v).__module__ or "").startswith("sharepoint2text."))
+
+
+def _part_methods(obj):
+    t = type(obj)
+    got = _PART_METHODS.get(t)
+    if got is None:
+        got = []
+        for name in sorted(dir(t)):
+            if name.startswith("_") or name in _NOT_ACCESSORS:
+                continue
+            f = getattr(t, name, None)
+            if not inspect.isfunction(f):          # plain methods only: no static / class methods (constructors), no properties
+                continue
+            try:
+                ps = list(inspect.signature(f).parameters.values())[1:]
+            except (TypeError, ValueError):
+                continue
+            if any(p.default is p.empty and p.kind not in (p.VAR_POSITIONAL, p.VAR_KEYWORD) for p in ps):
+                continue                           # needs an argument: not an observation of the result
+            got.append((name, option_sets(obj, name)))
+        _PART_METHODS[t] = got
+    return got
+
+
+# methods inherited from dict / list by results that subclass them (mutators among them) are not accessors of the library
+_NOT_ACCESSORS = frozenset(dir(dict)) | frozenset(dir(list))
+
+
+def _parts(v, path, out, top, _depth=0):
+    if _depth > 12:
+        return
+    if isinstance(v, (list, tuple)):
+        for i, x in enumerate(v):
+            _parts(x, "%s[%d]" % (path, i), out, top, _depth + 1)
+    elif _is_library_object(v):
+        if v is not top:
+            out.append((path, v))
+        for f in dataclasses.fields(v):
+            _parts(getattr(v, f.name, None), (path + "." if path else "") + f.name, out, top, _depth + 1)
+    elif isinstance(v, dict):
+        for k, x in v.items():
+            _parts(x, "%s{%s}" % (path, k), out, top, _depth + 1)
+
+
+def _ret(v):
+    """canonical form of what an accessor of a part returns (generators are drained, streams read)"""
+    if inspect.isgenerator(v) or isinstance(v, (map, filter, zip)):
+        v = list(v)
+    return canon(v)
+
+
+def o_parts(r, options=False):
+    """every library object reachable from the result through dataclass fields / lists / dicts (the result itself excluded:
+    its interface is the rest of the alphabet): every public method that can be called without arguments is called -
+    options=False: with its defaults; options=True: with every non-default option set (methods without options: not called)"""
+    objs = []
+    _parts(r, "", objs, r)
+    out = {}
+    for path, obj in objs:
+        for name, opts in _part_methods(obj):
+            if not options:
+                out["%s.%s" % (path, name)] = _ret(_call(getattr(obj, name)))
+            else:
+                for kw in opts:
+                    out["%s.%s" % (path, obs_name(name, kw))] = _ret(_call(getattr(obj, name), **kw))
+    return out
+
+
+def _has_part_options(r) -> bool:
+    objs = []
+    _parts(r, "", objs, r)
+    return any(opts for _, obj in objs for _, opts in _part_methods(obj))
+
+
+# base observer -> (function, interface method whose optional parameters are enumerated | None)
+OBSERVERS = {"full_text": (o_full_text, "get_full_text"), "units": (o_units, "iterate_units"), "units_first": (o_units_first, "iterate_units"),
+             "images": (o_images, "iterate_images"), "tables": (o_tables, "iterate_tables"), "metadata": (o_metadata, "get_metadata"),
+             "to_json": (o_to_json, "to_json"), "serialize": (o_serialize, None), "parts": (o_parts, None),
+             "attachments": (o_attachments, "iterate_supported_attachments")}
+ALPHABET = list(OBSERVERS)      # the base observers; alphabet_for() adds the option variants the results at hand have
+
+
+def _serialize_options():
+    from sharepoint2text.parsing.extractors.serialization import serialize_extraction
+    return option_sets_of(serialize_extraction, "serialize_extraction")
 
 
 def observe(name, results):
-    """apply one observer to every result of the extraction (in order); an exception is part of the returned value"""
-    f = OBSERVERS[name]
-    return [_call(f, r) for r in results]
+    """apply one observer to every result of the extraction (in order); an exception is part of the returned value; a result
+    whose method does not have the observer's options is not observed (None)"""
+    if name == "serialize_nobin":                   # earlier spelling (recorded cases)
+        name = "serialize(include_binary=False)"
+    base, kw = parse_obs(name)
+    f, method = OBSERVERS[base]
+    if base == "parts":
+        return [_call(f, r, bool(kw.get("options"))) for r in results]
+    if method is None:
+        return [_call(f, r, **kw) for r in results]
+    return [(_call(f, r, **kw) if _accepts(r, method, kw) else None) for r in results]
 
 
 def alphabet_for(results):
-    """`attachments` exists for e-mail results only"""
+    """the base observers (`attachments` exists for e-mail results only) + one observer per non-default option set of an
+    interface method of any of the results + serialize_extraction's option sets + parts(options=True) when a part has options"""
     has_att = any(hasattr(r, "iterate_supported_attachments") for r in results)
-    return [o for o in ALPHABET if o != "attachments" or has_att]
+    out = []
+    for base in ALPHABET:
+        if base == "attachments" and not has_att:
+            continue
+        out.append(base)
+        f, method = OBSERVERS[base]
+        if base == "serialize":
+            kws = _serialize_options()
+        elif base == "parts":
+            kws = [{"options": True}] if any(_has_part_options(r) for r in results) else []
+        else:
+            kws = []
+            for r in results:
+                for kw in option_sets(r, method):
+                    if kw not in kws:
+                        kws.append(kw)
+        out.extend(obs_name(base, kw) for kw in kws)
+    return out
 
 
 # ----------------------------------------------------------------------------------------------------------- diffs
